@@ -417,7 +417,7 @@ func genOp(c *simkit.Choices, sh *shared, taskIdx int) *op {
 	default: // a generated event stream (all event kinds, extended events, uint64 above MaxInt64) into an encoder
 		f := model.Formats[c.N(3)]
 		cd := common.ByName(f)
-		oo := model.OpsOpts{Extended: true, NonFinite: f != model.JSON, BigUint: true, Hints: true, MaxDepth: 3, Budget: 10, MaxStr: 30}
+		oo := model.OpsOpts{Extended: true, NonFinite: f != model.JSON, BigUint: true, Hints: true, MaxDepth: 3, Budget: 10, MaxStr: 30, DeepChains: true}
 		ops := model.GenOps(c, oo)
 		if c.Bool() {
 			// two values that UBJSON writes through its high-precision path
